@@ -43,6 +43,21 @@ Definition n_max := S_ [109;97;120]%N.
 Definition n_binAnd := S_ [98;105;110;65;110;100]%N.
 Definition n_binOr := S_ [98;105;110;79;114]%N.
 Definition n_numbers := S_ [110;117;109;98;101;114;115]%N.
+Definition n_number := S_ [110;117;109;98;101;114]%N.
+Definition n_compact := S_ [99;111;109;112;97;99;116]%N.
+Definition n_combine := S_ [99;111;109;98;105;110;101]%N.
+Definition n_combine3 := S_ [99;111;109;98;105;110;101;51]%N.
+Definition n_combineN := S_ [99;111;109;98;105;110;101;78]%N.
+Definition n_iir := S_ [105;105;114]%N.
+Definition n_iirCombine := S_ [105;105;114;67;111;109;98;105;110;101]%N.
+Definition n_single := S_ [115;105;110;103;108;101]%N.
+Definition n_minMax := S_ [109;105;110;77;97;120]%N.
+Definition n_mean := S_ [109;101;97;110]%N.
+Definition n_cross := S_ [99;114;111;115;115]%N.
+Definition n_merge := S_ [109;101;114;103;101]%N.
+Definition n_minItem := S_ [109;105;110;73;116;101;109]%N.
+Definition n_maxItem := S_ [109;97;120;73;116;101;109]%N.
+Definition n_valid := S_ [118;97;108;105;100]%N.
 
 Definition clo_arity (v : value) : option nat :=
   match v with VClo ps _ _ _ => Some (length ps) | _ => None end.
@@ -57,8 +72,139 @@ Fixpoint utf8_len (s : str) : Z :=
   | c :: r => (if (c <? 128)%N then 1 else if (c <? 2048)%N then 2 else if (c <? 65536)%N then 3 else 4) + utf8_len r
   end.
 
+(* min / max by <: the first minimal / maximal item (static min/max and List.Min / List.Max) *)
+Fixpoint pick_min (m : value) (l : list value) : res value :=
+  match l with
+  | [] => Ok m
+  | v :: r => match vless v m with
+              | Ok true => pick_min v r
+              | Ok false => pick_min m r
+              | Err t => Err t | Panic => Panic | OOF => OOF | Unsup => Unsup
+              end
+  end.
+
+Fixpoint pick_max (m : value) (l : list value) : res value :=
+  match l with
+  | [] => Ok m
+  | v :: r => match vless m v with
+              | Ok true => pick_max v r
+              | Ok false => pick_max m r
+              | Err t => Err t | Panic => Panic | OOF => OOF | Unsup => Unsup
+              end
+  end.
+
+(* ---- argument tuples of the stateless list stages (pure list functions) ---- *)
+
+(* List.Number: f(index, item), the index counts from 0 *)
+Fixpoint number_args (i : Z) (l : list value) : list (list value) :=
+  match l with
+  | [] => []
+  | x :: r => [VInt i; x] :: number_args (wrap64 (i + 1)) r
+  end.
+
+(* iterator.Combine: f(last, item) for every item after the first *)
+Fixpoint pair_args (last : value) (l : list value) : list (list value) :=
+  match l with
+  | [] => []
+  | x :: r => [last; x] :: pair_args x r
+  end.
+
+(* iterator.Combine3: f(lastLast, last, item) for every item after the second *)
+Fixpoint triple_args (ll la : value) (l : list value) : list (list value) :=
+  match l with
+  | [] => []
+  | x :: r => [ll; la; x] :: triple_args la x r
+  end.
+
+(* iterator.CombineN with the callback of List.CombineN: every group of n consecutive items, as a
+   list of its own in list order *)
+Fixpoint windows (n : nat) (l : list value) : list (list value) :=
+  match l with
+  | [] => []
+  | _ :: r => if Nat.leb n (length l) then [VList (firstn n l)] :: windows n r else []
+  end.
+
+(* iterator.Cross: for every item of the receiver, all items of the other list *)
+Fixpoint cross_args (l1 l2 : list value) : list (list value) :=
+  match l1 with
+  | [] => []
+  | a :: r => map (fun b => [a; b]) l2 ++ cross_args r l2
+  end.
+
+(* the map returned by List.MinMax *)
+Definition minmax_map (mn mx mni mxi : value) (valid : bool) : value :=
+  VMap [(n_min, mn); (n_max, mx); (n_minItem, mni); (n_maxItem, mxi); (n_valid, VBool valid)].
+
 Section WithApp.
 Variable app : value -> list value -> res value.
+
+(* a stateless stage: the callback on one argument tuple after the other, first to last *)
+Fixpoint mapargs_app (f : value) (argss : list (list value)) : res (list value) :=
+  match argss with
+  | [] => Ok []
+  | a :: r => bind (app f a) (fun y => bind (mapargs_app f r) (fun ys => Ok (y :: ys)))
+  end.
+
+(* List.Compact: an item is dropped when the callback says it equals the last PUBLISHED item *)
+Fixpoint compact_app (f : value) (last : value) (l : list value) : res (list value) :=
+  match l with
+  | [] => Ok []
+  | x :: r =>
+      bind (app f [last; x]) (fun b =>
+        match b with
+        | VBool true => compact_app f last r
+        | VBool false => bind (compact_app f x r) (fun ys => Ok (x :: ys))
+        | VErrText _ => Unsup
+        | _ => Err None
+        end)
+  end.
+
+(* iterator.IirMap after the first item: iir gets (item, last) , iirCombine (lastItem, item, last) *)
+Fixpoint scan_app (three : bool) (f : value) (lastItem last : value) (l : list value) : res (list value) :=
+  match l with
+  | [] => Ok []
+  | x :: r =>
+      bind (app f (if three then [lastItem; x; last] else [x; last])) (fun o =>
+        bind (scan_app three f x o r) (fun ys => Ok (o :: ys)))
+  end.
+
+Definition iir_app (three : bool) (ini f : value) (l : list value) : res (list value) :=
+  match l with
+  | [] => Ok []
+  | x :: r => bind (app ini [x]) (fun o => bind (scan_app three f x o r) (fun ys => Ok (o :: ys)))
+  end.
+
+(* iterator.Merge: a = pending item of the receiver, b = pending item of the other list;
+   less(a,b) true takes a, otherwise b; an exhausted side copies the other one *)
+Fixpoint merge_app (f : value) (l1 : list value) : list value -> res (list value) :=
+  fix inner (l2 : list value) : res (list value) :=
+    match l1 with
+    | [] => Ok l2
+    | a :: r1 =>
+        match l2 with
+        | [] => Ok l1
+        | b :: r2 =>
+            bind (app f [a; b]) (fun v =>
+              match v with
+              | VBool true => bind (merge_app f r1 l2) (fun m => Ok (a :: m))
+              | VBool false => bind (inner r2) (fun m => Ok (b :: m))
+              | VErrText _ => Unsup
+              | _ => Err None
+              end)
+        end
+    end.
+
+(* List.MinMax after the first item: the key of the item, then less(key, min), then less(max, key) *)
+Fixpoint minmax_app (f : value) (mn mx mni mxi : value) (l : list value) : res value :=
+  match l with
+  | [] => Ok (minmax_map mn mx mni mxi true)
+  | x :: r =>
+      bind (app f [x]) (fun k =>
+      bind (vless k mn) (fun le =>
+      bind (vless mx k) (fun gr =>
+        minmax_app f (if le then k else mn) (if gr then k else mx)
+                     (if le then x else mni) (if gr then x else mxi) r)))
+  end.
 
 Fixpoint map_app (f : value) (l : list value) : res (list value) :=
   match l with
@@ -123,6 +269,20 @@ Definition list_method (mname : name) : option arity :=
   else if str_eqb mname n_reverse then Some (Fixed 0)
   else if str_eqb mname n_indexWhere then Some (Fixed 1)
   else if str_eqb mname n_present then Some (Fixed 1)
+  else if str_eqb mname n_single then Some (Fixed 0)
+  else if str_eqb mname n_min then Some (Fixed 0)
+  else if str_eqb mname n_max then Some (Fixed 0)
+  else if str_eqb mname n_mean then Some (Fixed 0)
+  else if str_eqb mname n_minMax then Some (Fixed 1)
+  else if str_eqb mname n_number then Some (Fixed 1)
+  else if str_eqb mname n_compact then Some (Fixed 1)
+  else if str_eqb mname n_combine then Some (Fixed 1)
+  else if str_eqb mname n_combine3 then Some (Fixed 1)
+  else if str_eqb mname n_combineN then Some (Fixed 2)
+  else if str_eqb mname n_iir then Some (Fixed 2)
+  else if str_eqb mname n_iirCombine then Some (Fixed 2)
+  else if str_eqb mname n_cross then Some (Fixed 2)
+  else if str_eqb mname n_merge then Some (Fixed 2)
   else None.
 
 Definition run_list_method (mname : name) (l : list value) (args : list value) : res value :=
@@ -174,6 +334,109 @@ Definition run_list_method (mname : name) (l : list value) (args : list value) :
   else if str_eqb mname n_present then
     match args with
     | [f] => if is_func f 1 then bind (index_where f l 0) (fun i => Ok (VBool (0 <=? i))) else Err None
+    | _ => Err None
+    end
+  else if str_eqb mname n_single then match l with [x] => Ok x | _ => Err None end
+  else if str_eqb mname n_min then match l with x :: r => pick_min x r | [] => Err None end
+  else if str_eqb mname n_max then match l with x :: r => pick_max x r | [] => Err None end
+  else if str_eqb mname n_mean then
+    match l with
+    | x :: r => bind (fold_calc op_add x r) (fun s => calc op_div s (VInt (Z.of_nat (length l))))
+    | [] => Err None
+    end
+  else if str_eqb mname n_minMax then
+    match args with
+    | [f] =>
+        if is_func f 1 then
+          match l with
+          | [] => Ok (minmax_map (VInt 0) (VInt 0) (VInt 0) (VInt 0) false)
+          | x :: r => bind (app f [x]) (fun k => minmax_app f k k x x r)
+          end
+        else Err None
+    | _ => Err None
+    end
+  else if str_eqb mname n_number then
+    match args with
+    | [f] => if is_func f 2 then bind (mapargs_app f (number_args 0 l)) (fun ys => Ok (VList ys)) else Err None
+    | _ => Err None
+    end
+  else if str_eqb mname n_compact then
+    match args with
+    | [f] =>
+        if is_func f 2 then
+          match l with
+          | [] => Ok (VList [])
+          | x :: r => bind (compact_app f x r) (fun ys => Ok (VList (x :: ys)))
+          end
+        else Err None
+    | _ => Err None
+    end
+  else if str_eqb mname n_combine then
+    match args with
+    | [f] =>
+        if is_func f 2 then
+          bind (mapargs_app f (match l with [] => [] | x :: r => pair_args x r end)) (fun ys => Ok (VList ys))
+        else Err None
+    | _ => Err None
+    end
+  else if str_eqb mname n_combine3 then
+    match args with
+    | [f] =>
+        if is_func f 3 then
+          bind (mapargs_app f (match l with x :: y :: r => triple_args x y r | _ => [] end))
+               (fun ys => Ok (VList ys))
+        else Err None
+    | _ => Err None
+    end
+  else if str_eqb mname n_combineN then
+    match args with
+    | [VInt n; f] =>
+        if n <? 1 then Err None
+        else if is_func f 1 then
+          if 100000 <? n then Unsup        (* the ring buffer of n items is allocated up front *)
+          else bind (mapargs_app f (windows (Z.to_nat n) l)) (fun ys => Ok (VList ys))
+        else Err None
+    | [VErrText _; _] => Unsup
+    | _ => Err None
+    end
+  else if str_eqb mname n_iir then
+    match args with
+    | [ini; f] =>
+        if is_func ini 1 then
+          if is_func f 2 then bind (iir_app false ini f l) (fun ys => Ok (VList ys)) else Err None
+        else Err None
+    | _ => Err None
+    end
+  else if str_eqb mname n_iirCombine then
+    match args with
+    | [ini; f] =>
+        if is_func ini 1 then
+          if is_func f 3 then bind (iir_app true ini f l) (fun ys => Ok (VList ys)) else Err None
+        else Err None
+    | _ => Err None
+    end
+  else if str_eqb mname n_cross then
+    match args with
+    | [other; f] =>
+        if is_func f 2 then
+          match other with
+          | VList l2 => bind (mapargs_app f (cross_args l l2)) (fun ys => Ok (VList ys))
+          | VErrText _ => Unsup
+          | _ => Err None
+          end
+        else Err None
+    | _ => Err None
+    end
+  else if str_eqb mname n_merge then
+    match args with
+    | [other; f] =>
+        if is_func f 2 then
+          match other with
+          | VList l2 => bind (merge_app f l l2) (fun ys => Ok (VList ys))
+          | VErrText _ => Unsup
+          | _ => Err None
+          end
+        else Err None
     | _ => Err None
     end
   else Unsup.
@@ -250,26 +513,6 @@ Definition static_arity (f : name) : option arity :=
   else if str_eqb f n_binAnd || str_eqb f n_binOr then Some (Fixed 2)
   else if str_eqb f n_min || str_eqb f n_max then Some VarArgs
   else None.
-
-Fixpoint pick_min (m : value) (l : list value) : res value :=
-  match l with
-  | [] => Ok m
-  | v :: r => match vless v m with
-              | Ok true => pick_min v r
-              | Ok false => pick_min m r
-              | Err t => Err t | Panic => Panic | OOF => OOF | Unsup => Unsup
-              end
-  end.
-
-Fixpoint pick_max (m : value) (l : list value) : res value :=
-  match l with
-  | [] => Ok m
-  | v :: r => match vless m v with
-              | Ok true => pick_max v r
-              | Ok false => pick_max m r
-              | Err t => Err t | Panic => Panic | OOF => OOF | Unsup => Unsup
-              end
-  end.
 
 Definition run_static (f : name) (args : list value) : res value :=
   if str_eqb f n_throw then
